@@ -154,6 +154,8 @@ type World struct {
 	chain *SimChain
 	kv    *simcore.SimKV
 	aux   *simcore.SimKV
+	// probe: see NewWorld (bbolt worlds only)
+	probe *graphdb.KVStore
 	sql   *sqldb.SqliteStore
 
 	self     *uNode
@@ -408,6 +410,14 @@ func NewWorld(r *simcore.Run, chain *SimChain, self *uNode, npeers int, syncPeer
 		}, exec, opts...)
 	} else {
 		store, err = graphdb.NewKVStore(w.kv, opts...)
+		if err == nil {
+			// A second store object on the same file, with locks and caches
+			// of its own: the simulator's window on what is durably stored,
+			// usable from inside the node's write path (OnCommitted) without
+			// touching the node's locks.
+			w.probe, err = graphdb.NewKVStore(w.kv, graphdb.WithBatchCommitInterval(0),
+				graphdb.WithRejectCacheSize(1), graphdb.WithChannelCacheSize(1))
+		}
 	}
 	r.Must(err, "graph store")
 	w.cg, err = graphdb.NewChannelGraph(store, graphdb.WithSyncGraphCachePopulation(),
